@@ -80,8 +80,8 @@ CLAIMS.update({
          "R03a keyword agreement, R03d no unwrap/expect on a coercion of a run-time value in resolve-reachable code, R03f progressive type check on the argument's own kind, R03c returned Value variants are inside the documented return kinds, R03g inside the type_def evaluated under the declared parameter kinds (P-ABS), R03h restricted arguments never reach a kind-agnostic conversion unchecked. Found and fixed three panicking functions and the compact/flatten type_def.", "§4 C03"),
  "C04": ("panic-class rules: coercion/target result consumers, keyword agreement, overflow-capable negation, guarded sign-losing casts (dominance + alias analysis), unwrap-on-content-dependent-call, who-may-call (Decimal operators), enum validation by equality",
          "R04a,b,c,e,f,g,h,i,j,k,l,m,n decide absence of thirteen classes of host panic (coercion/target unwraps, keyword mismatch, negation overflow, sign-losing casts, char-count byte indices, zero-intolerant operations and checked shifts, regex Captures indexing, unwrap/expect directly on a content-dependent fallible library call, panicking Decimal operators, enum arguments accepted other than by equality with a declared variant, unguarded rand::Rng::random_range, an accepted enum variant without a dispatch arm); the remaining panic-capable sites (indexing, internal unwraps, third-party) are explicitly undecided.", "§4 C04"),
- "C05": ("dominance/guard analysis of every signed->unsigned cast of a run-time integer in stdlib/value code",
-         "R05a: a user-supplied signed integer becomes an unsigned count only behind an order test (or bounded after the cast). One hazard class of non-termination, not termination in general.", "§4 C05"),
+ "C05": ("dominance/guard analysis of every signed->unsigned cast of a run-time integer in stdlib/value code; backward flow of the end of every iterated Range to run-time integer values",
+         "R05a: a user-supplied signed integer becomes an unsigned count only behind an order test (or bounded after the cast); R05b: no iterated integer Range in stdlib code takes its end from the value of a run-time integer (try_integer / unsigned_abs / signed parameter) without a min/clamp bound (found `format_number(x, scale: huge)`, recorded as known finding). Two hazard classes of non-termination, not termination in general.", "§4 C05"),
 })
 
 CLAIMS.update({
